@@ -61,6 +61,7 @@ def base_ns(draw=None, probes=0, hooks=False):
         ss=dict(t='list', items=['⟦s0⟧', '⟦s1⟧']),
         VfA=dict(t='exc', n='VfA'), VfB=dict(t='exc', n='VfB'),
         VfC=dict(t='exc', n='VfC'), VfX=dict(t='exc', n='VfX'),
+        VfM=dict(t='exc', n='VfM'),
         ta=dict(t='tmpl', defaults=dict(td='⟦TA.td⟧', vb='⟦TA.vb⟧'),
                 ast=[dict(k='text', s='(ta:'),
                      dict(k='var', ref=dict(r='name', n='va')),
@@ -353,7 +354,7 @@ def node_of(cfg, k, depth, scope):
                          body(cfg, d, scope), e(2))
     if k == 'raise':
         ref = st.one_of(
-            st.sampled_from(['VfA', 'VfB', 'VfC', 'VfX']).map(
+            st.sampled_from(['VfA', 'VfB', 'VfC', 'VfX', 'VfM']).map(
                 lambda n: dict(r='expr', e=E('name', n=n))),
             st.sampled_from(['KeyError', 'ZeroDivisionError', 'ValueError',
                              'NotFound', 'BadRequest']).map(
